@@ -64,6 +64,8 @@ MkMethod(c, mc, k) ==
      anns |-> IF "anns" \in DOMAIN mc THEN mc.anns ELSE AutoAnns(c, mc),
      ret |-> mc.ret, errors |-> mc.errors, response |-> mc.response, desc |-> mc.desc,
      ptag |-> IF "ptag" \in DOMAIN mc THEN mc.ptag ELSE "",
+     \* a properties object on @Method (which takes none): lint material only - a warning, never a reason to reject
+     verbProps |-> IF "verbProps" \in DOMAIN mc THEN mc.verbProps ELSE "",
      \* rendering only: adjacent parameters of one type are declared as a Go identifier list - func (a, b, c string, d int) -
      \* (the documented / bound order is the signature order whichever way the author groups the names)
      grouped |-> ("grouped" \in DOMAIN mc /\ mc.grouped)]
